@@ -32,7 +32,7 @@ func ZZ_C18_AOF() {
 		init.present, init.val = true, rt.U8("initial-value-byte")
 		rt.Assert(d.Put(ctx, zz18Key, []byte{init.val}) == nil, "sequential-put-works")
 	}
-	if (alpha == 1 || alpha == 2) && rt.Fork("initial-child") {
+	if (alpha == 1 || alpha == 2 || alpha == 4) && rt.Fork("initial-child") {
 		init.child = true
 		rt.Assert(d.PrefixAppend(ctx, zz18Key, zz18Child) == nil, "sequential-append-works")
 	}
